@@ -1,7 +1,7 @@
 (* C01 — all lemmas (re-exported), and non-vacuity examples for the
    implication-shaped theorems. *)
 From Yv Require Import Common.Base C01.Model C01.Spec.
-From Yv Require Export C01.ProofsSplit C01.ProofsPhrase C01.ProofsParam C01.ProofsWord C01.ProofsRead C01.ProofsCore C01.ProofsTrim.
+From Yv Require Export C01.ProofsSplit C01.ProofsPhrase C01.ProofsParam C01.ProofsWord C01.ProofsRead C01.ProofsCore C01.ProofsTrim C01.ProofsText.
 
 Definition sp (c : N) : attrchar := AC c SoftExpansion false false.
 Definition qu (c : N) : attrchar := AC c SoftExpansion true false.
